@@ -2,7 +2,7 @@
 (***************************************************************************)
 (* C11 - uncommitted changes are never swept into the bump commit.         *)
 (* Four files (two carry a version pattern, two do not), each in one of    *)
-(* the nine states git can report, rendered as porcelain lines and read    *)
+(* the eleven states git can report, rendered as porcelain lines and read    *)
 (* back by the spec's fixed-column parser:                                 *)
 (*   NoSweep              an update that is not blocked finds every        *)
 (*                        pattern file clean                               *)
@@ -16,10 +16,10 @@ Name(f) == CASE f = "pat1" -> <<112,97,116,49,46,116,120,116>> [] f = "pat2" -> 
              [] f = "oth1" -> <<111,49,46,116,120,116>> [] f = "oth2" -> <<77,32,120,46,116,120,116>>     \* "M x.txt": a name that looks like a status line
 OldName(f) == <<111,108,100,95>> \o Name(f)
 PatternPaths == {Name("pat1"), Name("pat2")}
-States == {"clean", " M", "M ", "MM", "A ", " D", "D ", "R ", "??"}
+States == {"clean", " M", "M ", "MM", "A ", "AM", " D", "D ", "R ", "RM", "??"}
 XY(s) == CASE s = " M" -> <<32,77>> [] s = "M " -> <<77,32>> [] s = "MM" -> <<77,77>> [] s = "A " -> <<65,32>> [] s = " D" -> <<32,68>>
-           [] s = "D " -> <<68,32>> [] s = "R " -> <<82,32>> [] s = "??" -> <<63,63>>
-Line(f, s) == XY(s) \o <<32>> \o (IF s = "R " THEN OldName(f) \o <<32,45,62,32>> \o Name(f) ELSE Name(f))
+           [] s = "D " -> <<68,32>> [] s = "R " -> <<82,32>> [] s = "RM" -> <<82,77>> [] s = "AM" -> <<65,77>> [] s = "??" -> <<63,63>>
+Line(f, s) == XY(s) \o <<32>> \o (IF s \in {"R ", "RM"} THEN OldName(f) \o <<32,45,62,32>> \o Name(f) ELSE Name(f))
 VARIABLES st, allow
 Init == st \in [{"pat1", "pat2", "oth1", "oth2"} -> States] /\ allow \in BOOLEAN
 Next == FALSE /\ UNCHANGED <<st, allow>>
@@ -30,5 +30,5 @@ NoSweep == ~B => (st["pat1"] = "clean" /\ st["pat2"] = "clean")
 DirtyBlocksUnlessAllowed == (~allow /\ \E f \in Dirty : ~(st[f] = "??" /\ f \in {"oth1", "oth2"})) => B
 UntrackedOthersInert == (\A f \in Dirty : st[f] = "??" /\ f \in {"oth1", "oth2"}) => ~B
 ParseRecovers == \A q \in 1..Len(Lines) : LET e == ParseLine(Lines[q], "git") f == SelectSeq(Files, LAMBDA x : st[x] # "clean")[q] IN
-                    e.xy = XY(st[f]) /\ e.paths[Len(e.paths)] = Name(f) /\ (st[f] = "R " => e.paths[1] = OldName(f))
+                    e.xy = XY(st[f]) /\ e.paths[Len(e.paths)] = Name(f) /\ (st[f] \in {"R ", "RM"} => e.paths[1] = OldName(f))
 =============================================================================
